@@ -91,6 +91,9 @@ type Term struct {
 
 func (t *Term) ID() int { return t.id }
 
+// NumTerms is the number of distinct terms created so far.
+func (c *Ctx) NumTerms() int { return c.next }
+
 // HasBound reports whether t mentions a bound variable.
 func (t *Term) HasBound() bool { return t.open }
 
